@@ -371,15 +371,27 @@ Definition build (es : list entry) : tree :=
   fold_left (fun t e => tinsert (fst e) (snd e) t) es Nil.
 Definition H0 (_ : bytes) : bytes := [].
 (* input: (entries in insertion order, chunk size, threads);
-   output: the keys carried by every chunk, in proof order *)
+   output: the keys carried by every chunk, in proof order, each key named by
+   its position in the sorted contents (long byte-string literals are costly
+   to evaluate; positions are not).  For that the values of the tree are
+   replaced by positions AFTER the runs have been computed on the real tree;
+   [chunk_of] looks at keys only. *)
+Fixpoint relabel (i : N) (t : tree) : tree * N :=
+  match t with
+  | Nil => (Nil, i)
+  | Leaf k _ => (Leaf k [i], i + 1)
+  | Node lbl lf l r =>
+      let '(lf', i1) := match lf with Some (k, _) => (Some (k, [i]), i + 1) | None => (None, i) end in
+      let '(l', i2) := relabel i1 l in
+      let '(r', i3) := relabel i2 r in
+      (Node lbl lf' l' r', i3)
+  end.
 Definition ck_in := (list entry * N * N)%type.
-Definition ck_out := list (list bytes).
+Definition ck_out := list (list N).
 Definition run_ckpt (i : ck_in) : ck_out :=
   let '(es, size, threads) := i in
-  map (fun c => map fst (pleaves c)) (chunks H0 size (N.to_nat threads) (build es)).
-Definition ck_eqb (a b : ck_out) : bool := list_eqb (list_eqb bytes_eqb) a b.
-
-(* second observable: depth at which the verifier would reject *)
-Definition max_chunk_depth (i : ck_in) : N :=
-  let '(es, size, threads) := i in
-  N.of_nat (fold_right Nat.max O (map pdepth (chunks H0 size (N.to_nat threads) (build es)))).
+  let t := build es in
+  let t' := fst (relabel 0 t) in
+  map (fun run => map (fun e => hd 0 (snd e)) (pleaves (chunk_of H0 (inrun run) t')))
+      (chunk_runs size (N.to_nat threads) t).
+Definition ck_eqb (a b : ck_out) : bool := list_eqb (list_eqb N.eqb) a b.
